@@ -437,7 +437,11 @@ func c09Body(w *W) {
 				if !w.Mine() {
 					continue
 				}
-				run(job{c09Env{Stream: si, Cuts: cuts, FaultAt: -1, Recycle: c.recycle, Gomax: c.gomax, ResCap: c.rc, TmpSize: 64}, pb, 0}, stream, want)
+				b := pb
+				if b > 2 && (ci != 0 || len(cuts) >= 2) {
+					b = 2 // three deviations only in the base configuration with at most one cut
+				}
+				run(job{c09Env{Stream: si, Cuts: cuts, FaultAt: -1, Recycle: c.recycle, Gomax: c.gomax, ResCap: c.rc, TmpSize: 64}, b, 0}, stream, want)
 			}
 		})
 		// smallest scenarios additionally: EVERY interleaving (unbounded, state-key pruning)
@@ -469,7 +473,11 @@ func c09Body(w *W) {
 					if !w.Mine() {
 						return
 					}
-					run(job{c09Env{Stream: si, Cuts: cuts, FaultAt: f, WithData: wd, Recycle: 0xff, Gomax: 3, ResCap: 0, TmpSize: 64}, pb, 0}, stream, want)
+					b := pb
+					if b > 2 && len(cuts) >= 1 {
+						b = 2
+					}
+					run(job{c09Env{Stream: si, Cuts: cuts, FaultAt: f, WithData: wd, Recycle: 0xff, Gomax: 3, ResCap: 0, TmpSize: 64}, b, 0}, stream, want)
 				})
 			}
 		}
